@@ -250,8 +250,9 @@ def evalExpr (bits : Nat) (unsigned : Bool) (opts : List EnumOption) : Expr → 
     | some o => some (wrapTo bits unsigned (if unsigned then (o.uvalue : Int) else o.value))
     | none => none
   | .num text =>
-    if unsigned then (parseUint text true 64).map (fun n => wrapTo bits unsigned n)
-    else (parseInt text true 64).map (fun n => wrapTo bits unsigned n)
+    -- parsed with the base type's bit size (the fix): an out-of-range literal is an error
+    if unsigned then (parseUint text true bits).map (fun n => wrapTo bits unsigned n)
+    else (parseInt text true bits).map (fun n => wrapTo bits unsigned n)
   | .paren e => evalExpr bits unsigned opts e
   | .bin op l r =>
     match evalExpr bits unsigned opts l, evalExpr bits unsigned opts r with
